@@ -80,9 +80,10 @@ type GraphOpts struct {
 	MaxElems    int      // elements per section
 	SchemaDocs  bool     // allow documents whose root is a plain schema (whole-document targets)
 	NoPathItems bool
-	Payloads    bool // plant free-form payloads that contain the key $ref (they are not reference positions)
-	DagPct      int  // probability (percent) that the whole graph is wired acyclic by construction
-	OnlyFragAbs bool // refs are fragment-only or absolute URLs (the documented domain of the root-based entry points)
+	Payloads    bool   // plant free-form payloads that contain the key $ref (they are not reference positions)
+	DagPct      int    // probability (percent) that the whole graph is wired acyclic by construction
+	LabelPrefix string // prepended to every content label (C16: variants of the same documents must be tellable apart)
+	OnlyFragAbs bool   // refs are fragment-only or absolute URLs (the documented domain of the root-based entry points)
 }
 
 func DefaultGraphOpts() GraphOpts {
@@ -119,7 +120,7 @@ func (s *gstate) addTarget(p model.Pos, k model.Kind, isHole bool) int {
 
 func (s *gstate) newLabel(prefix string) string {
 	s.label++
-	return prefix + strconv.Itoa(s.label)
+	return s.o.LabelPrefix + prefix + strconv.Itoa(s.label)
 }
 
 func (s *gstate) name(label string) string {
